@@ -74,6 +74,10 @@ thread_local! {
 pub fn set_common_only(b: bool) {
     COMMON_ONLY.with(|c| c.set(b));
 }
+pub fn is_common_only() -> bool {
+    common_only()
+}
+
 fn common_only() -> bool {
     COMMON_ONLY.with(|c| c.get())
 }
@@ -467,11 +471,49 @@ pub fn gen_att_stmt(src: &mut Src, info: &mut RInfo, packed: bool, x5c: bool) ->
     if info.opt(x5c) {
         info.l("attStmt:packed+x5c");
         let n = src.below(2);
-        m.push(ks("x5c", Value::Array((0..n).map(|_| bytes_cap(src, 1024)).collect())));
+        m.push(ks(
+            "x5c",
+            Value::Array(
+                (0..n)
+                    .map(|_| {
+                        if src.chance(1, 3) {
+                            // what the member is for: one DER certificate, or a chain of two or three
+                            // back to back (leaf + intermediates), each SEQUENCE with an exact length
+                            Value::Bytes(der_chain(src))
+                        } else {
+                            bytes_cap(src, 1024)
+                        }
+                    })
+                    .collect(),
+            ),
+        ));
     } else {
         info.l("attStmt:packed");
     }
     Value::Map(m)
+}
+
+/// 1-3 well-formed DER SEQUENCE elements back to back, at most 1024 bytes in total
+pub fn der_chain(src: &mut Src) -> Vec<u8> {
+    let n = 1 + src.below(3);
+    let mut out = vec![];
+    for _ in 0..n {
+        let body = *src.pick(&[0usize, 5, 100, 126, 127, 128, 200, 255, 256, 300]);
+        let mut e = vec![0x30];
+        if body < 128 {
+            e.push(body as u8);
+        } else if body < 256 {
+            e.extend_from_slice(&[0x81, body as u8]);
+        } else {
+            e.extend_from_slice(&[0x82, (body >> 8) as u8, body as u8]);
+        }
+        e.extend((0..body).map(|i| if i + 1 == body && body % 2 == 0 { 0xFF } else { 0x02 + (i % 7) as u8 }));
+        if out.len() + e.len() > 1024 {
+            break;
+        }
+        out.extend_from_slice(&e);
+    }
+    out
 }
 
 pub fn gen_bytes32(src: &mut Src) -> Value {
